@@ -72,4 +72,79 @@ theorem call_tool_never_without_content (r : ToolRet) (ms : List (Bytes × JVal)
 /-- the nil result goes out as `"content":[]` -/
 example : sdkCallTool .nilResult = .sent [(CallToolResult_Content_name, .arr [])] := rfl
 
+/-! ## list results page by page -/
+
+/-- the list member `listPage` sends, for a paged method and a cursor that decodes -/
+theorem listPage_sent (k : RKind) (hk : k.isPaged = true) (item : Bytes → JVal) (keys : List Bytes) (ps : Nat)
+    (c : Cursor) (hc : c ≠ .garbage) :
+    (listPage k item keys ps c).1 = .sent (.arr (((pageSeq keys c).take ps).map item)) := by
+  cases c with
+  | garbage => exact absurd rfl hc
+  | first =>
+    simp only [listPage]
+    by_cases h : (pageSeq keys .first).take ps = [] <;> cases k <;>
+      simp_all [RKind.isPaged, sdkResultList, nonNil, RList.enc]
+  | after uid =>
+    simp only [listPage]
+    by_cases h : (pageSeq keys (.after uid)).take ps = [] <;> cases k <;>
+      simp_all [RKind.isPaged, sdkResultList, nonNil, RList.enc]
+
+/-- `above(uid)` at every position: if the keys split into a part none of which is above `uid` and a
+part that is empty or starts with a key above `uid`, the sequence is the second part. -/
+theorem keysAbove_split (uid : Bytes) (a b : List Bytes) (ha : ∀ k ∈ a, keyLt uid k = false)
+    (hb : ∀ h t, b = h :: t → keyLt uid h = true) : keysAbove uid (a ++ b) = b := by
+  unfold keysAbove
+  induction a with
+  | nil =>
+    cases b with
+    | nil => rfl
+    | cons h t => simp [List.dropWhile, hb h t rfl]
+  | cons x xs ih =>
+    have hx := ha x (by simp)
+    simp only [List.cons_append, List.dropWhile, hx, Bool.not_false, ite_true]
+    exact ih (fun k hk => ha k (by simp [hk]))
+
+/-- **required_lists_present, every cursor position.** -/
+theorem required_lists_present_paged (k : RKind) (hk : k.isPaged = true) (item : Bytes → JVal) (keys : List Bytes)
+    (ps : Nat) (c : Cursor) :
+    (c = .garbage ∧ (listPage k item keys ps c).1 = .errorInstead) ∨
+    (∃ items, (listPage k item keys ps c).1 = .sent (.arr items) ∧ items.length ≤ ps ∧
+      items = ((pageSeq keys c).take ps).map item) := by
+  by_cases hc : c = .garbage
+  · subst hc; exact Or.inl ⟨rfl, rfl⟩
+  · refine Or.inr ⟨_, listPage_sent k hk item keys ps c hc, ?_, rfl⟩
+    simp only [List.length_map, List.length_take]
+    omega
+
+/-- **list_page_beyond_last_is_empty_array.** -/
+theorem list_page_beyond_last (k : RKind) (hk : k.isPaged = true) (item : Bytes → JVal) (keys : List Bytes)
+    (ps : Nat) (uid : Bytes) (h : ∀ x ∈ keys, keyLt uid x = false) :
+    listPage k item keys ps (.after uid) = (.sent (.arr []), none) := by
+  have hs : pageSeq keys (.after uid) = [] := by
+    have := keysAbove_split uid keys [] h (by intro _ _ hh; cases hh)
+    simpa [pageSeq] using this
+  have h1 := listPage_sent k hk item keys ps (.after uid) (by simp)
+  rw [hs] at h1
+  have h2 : (listPage k item keys ps (.after uid)).2 = none := by
+    simp [listPage, hs]
+  rw [Prod.ext_iff]
+  exact ⟨by simpa using h1, h2⟩
+
+theorem list_page_at_position (k : RKind) (hk : k.isPaged = true) (item : Bytes → JVal) (a b : List Bytes)
+    (ps : Nat) (uid : Bytes) (ha : ∀ x ∈ a, keyLt uid x = false) (hb : ∀ h t, b = h :: t → keyLt uid h = true) :
+    (listPage k item (a ++ b) ps (.after uid)).1 = .sent (.arr ((b.take ps).map item)) := by
+  rw [listPage_sent k hk item (a ++ b) ps (.after uid) (by simp)]
+  simp only [pageSeq, keysAbove_split uid a b ha hb]
+
+theorem keyLt_irrefl (a : Bytes) : keyLt a a = false := by
+  induction a with
+  | nil => rfl
+  | cons x xs ih => simp [keyLt, ih]
+
+/-- Non-vacuity: three tools, page size 2; the cursor the first page issued ("b"), used after "c" was
+removed, is answered with the empty array and no further cursor. -/
+example : listPage .listTools (fun k => .str k) [[97], [98], [99]] 2 .first = (.sent (.arr [.str [97], .str [98]]), some [98]) := by
+  rfl
+example : listPage .listTools (fun k => .str k) [[97], [98]] 2 (.after [98]) = (.sent (.arr []), none) := by rfl
+
 end Wire.L
